@@ -40,7 +40,7 @@ func cmpOf(op token.Token) string {
 }
 
 // flip a comparison so that the operand matching `left` is on the left
-func flipCmp(c string) string {
+func flipCmp13(c string) string {
 	switch c {
 	case ".gt":
 		return ".lt"
@@ -148,7 +148,7 @@ func (c *ctxT) c13SlashLoop(name string) c13Loop {
 			if isCont && strings.Contains(l, "oracles[i].StartHeight") {
 				res.startSkip = cmpOf(be.Op)
 			} else if isCont && strings.Contains(r, "oracles[i].StartHeight") {
-				res.startSkip = flipCmp(cmpOf(be.Op))
+				res.startSkip = flipCmp13(cmpOf(be.Op))
 			}
 			continue
 		}
@@ -319,7 +319,7 @@ func extractC13(c *ctxT) {
 	w1, a1, b1 := c.c13WindowCmp("GetUnSlashedOracleSets")
 	if !(a1 == "maxHeight" && b1 == "oracleSet.Height") {
 		if a1 == "oracleSet.Height" && b1 == "maxHeight" {
-			w1 = flipCmp(w1)
+			w1 = flipCmp13(w1)
 		} else {
 			w1 = ".other"
 		}
@@ -327,7 +327,7 @@ func extractC13(c *ctxT) {
 	w3, a3, b3 := c.c13WindowCmp("GetUnSlashedBridgeCalls")
 	if !(a3 == "bridgeCall.BlockHeight" && b3 == "height") {
 		if a3 == "height" && b3 == "bridgeCall.BlockHeight" {
-			w3 = flipCmp(w3)
+			w3 = flipCmp13(w3)
 		} else {
 			w3 = ".other"
 		}
